@@ -3,6 +3,7 @@
 //!   P / T / PUB / SUB / W / R accept  l=<0|1>  (install a recording listener)  and  m=<K,K,...>  (listener
 //!   mask; kinds IT ODM RDM OIQ RIQ SL SR DOR DA LL LC PM SM; `-` = empty);  T2 = topic of a second type
 //!   (same type NAME, different structure) to raise InconsistentTopic
+//!   SL <W|R|PUB|SUB|P> <idx> l= m=   set_listener after creation (create with old=1 to label the replaced listener OLD..)
 //!   jump <ns>     move the clock without visiting intermediate timer deadlines, then settle
 //!   ev            print and clear the recorded listener calls: `ev <label>:<kind>:<count> ...` (sorted);
 //!                 labels P<i> PUB<i> SUB<i> W<i> R<i> T<i> (creation index of the entity owning the listener)
@@ -153,6 +154,9 @@ fn kind_of(k: &str) -> Option<StatusKind> {
     })
 }
 /// (install listener?, mask) from the `l=` / `m=` tokens
+fn old_prefix(tokens: &[&str]) -> &'static str {
+    if tokens.iter().any(|t| *t == "old=1") { "OLD" } else { "" }
+}
 fn lm(tokens: &[&str]) -> (bool, Vec<StatusKind>) {
     let mut l = false;
     let mut m = vec![];
@@ -333,7 +337,7 @@ impl World {
             "P" => {
                 let f = &self.factory;
                 let (l, m) = lm(&t[1..]);
-                let rec = if l { Some(Rec { log: self.log.clone(), label: format!("P{}", self.parts.len()) }) } else { None };
+                let rec = if l { Some(Rec { log: self.log.clone(), label: format!("{}P{}", old_prefix(&t[1..]), self.parts.len()) }) } else { None };
                 let r = self.sim.run(f.create_participant(n(1) as i32, QosKind::Default, rec, &m), BUDGET);
                 self.sim.settle();
                 match r {
@@ -349,7 +353,7 @@ impl World {
                 let p = &self.parts[u(1)];
                 let name = t.get(2).copied().unwrap_or("topic");
                 let (l, m) = lm(&t[1..]);
-                let rec = if l { Some(Rec { log: self.log.clone(), label: format!("T{}", self.topics.len()) }) } else { None };
+                let rec = if l { Some(Rec { log: self.log.clone(), label: format!("{}T{}", old_prefix(&t[1..]), self.topics.len()) }) } else { None };
                 let r = if t[0] == "T" {
                     self.sim.run(p.create_topic::<KeyedData>(name, "KeyedData", QosKind::Default, rec, &m), BUDGET)
                 } else {
@@ -368,7 +372,7 @@ impl World {
             "PUB" => {
                 let p = &self.parts[u(1)];
                 let (l, m) = lm(&t[1..]);
-                let rec = if l { Some(Rec { log: self.log.clone(), label: format!("PUB{}", self.pubs.len()) }) } else { None };
+                let rec = if l { Some(Rec { log: self.log.clone(), label: format!("{}PUB{}", old_prefix(&t[1..]), self.pubs.len()) }) } else { None };
                 let r = self.sim.run(p.create_publisher(QosKind::Default, rec, &m), BUDGET);
                 self.sim.settle();
                 match r {
@@ -383,7 +387,7 @@ impl World {
             "SUB" => {
                 let p = &self.parts[u(1)];
                 let (l, m) = lm(&t[1..]);
-                let rec = if l { Some(Rec { log: self.log.clone(), label: format!("SUB{}", self.subs.len()) }) } else { None };
+                let rec = if l { Some(Rec { log: self.log.clone(), label: format!("{}SUB{}", old_prefix(&t[1..]), self.subs.len()) }) } else { None };
                 let r = self.sim.run(p.create_subscriber(QosKind::Default, rec, &m), BUDGET);
                 self.sim.settle();
                 match r {
@@ -413,7 +417,7 @@ impl World {
                 let pb = &self.pubs[u(1)];
                 let tp = &self.topics[u(2)];
                 let (l, m) = lm(&t[1..]);
-                let rec = if l { Some(Rec { log: self.log.clone(), label: format!("W{}", self.writers.len()) }) } else { None };
+                let rec = if l { Some(Rec { log: self.log.clone(), label: format!("{}W{}", old_prefix(&t[1..]), self.writers.len()) }) } else { None };
                 let r = self.sim.run(pb.create_datawriter::<KeyedData>(tp, QosKind::Specific(q), rec, &m), BUDGET);
                 self.sim.settle();
                 match r {
@@ -442,7 +446,7 @@ impl World {
                 let sb = &self.subs[u(1)];
                 let tp = &self.topics[u(2)];
                 let (l, m) = lm(&t[1..]);
-                let rec = if l { Some(Rec { log: self.log.clone(), label: format!("R{}", self.readers.len()) }) } else { None };
+                let rec = if l { Some(Rec { log: self.log.clone(), label: format!("{}R{}", old_prefix(&t[1..]), self.readers.len()) }) } else { None };
                 let r = self.sim.run(sb.create_datareader::<KeyedData>(tp, QosKind::Specific(q), rec, &m), BUDGET);
                 self.sim.settle();
                 match r {
@@ -513,6 +517,26 @@ impl World {
                     s += &format!(" {}:{}:{}", l, k, c);
                 }
                 s
+            }
+            "SL" => {
+                // set_listener after creation: SL <W|R|PUB|SUB|P> <idx> l= m=   (the new listener is labelled like
+                // one installed at creation; listeners installed at creation of an entity that is re-configured
+                // should be created with the scenario flag old=1 so that they are labelled OLD<label>)
+                let (l, m) = lm(&t[1..]);
+                let i = u(2);
+                let rec = |label: String| if l { Some(Rec { log: self.log.clone(), label }) } else { None };
+                let r = match t[1] {
+                    "W" => self.sim.run(self.writers[i].set_listener(rec(format!("W{}", i)), &m), BUDGET),
+                    "R" => self.sim.run(self.readers[i].set_listener(rec(format!("R{}", i)), &m), BUDGET),
+                    "PUB" => self.sim.run(self.pubs[i].set_listener(rec(format!("PUB{}", i)), &m), BUDGET),
+                    "SUB" => self.sim.run(self.subs[i].set_listener(rec(format!("SUB{}", i)), &m), BUDGET),
+                    _ => self.sim.run(self.parts[i].set_listener(rec(format!("P{}", i)), &m), BUDGET),
+                };
+                self.sim.settle();
+                match r {
+                    Ok(x) => format!("SL {}", rc(&x)),
+                    Err(_) => "SL STUCK".into(),
+                }
             }
             "jump" => {
                 // move the simulated clock WITHOUT stopping at the timer deadlines on the way, then let the
